@@ -219,7 +219,7 @@ def compute_posts(ctx, key):
         P = states[0]
         for S in states[1:]:
             P = join_states(P, S, ("post", key, d))
-        v = P.read((("L", 0), ()))
+        v = P.read((it.L(0), ()))
         post = Post()
         post.nsites = len(states)
         leaves = int_leaves(v)
@@ -259,7 +259,7 @@ def compute_posts(ctx, key):
 
 
 def _record_site(it, S, sites, is_enum):
-    v = S.read((("L", 0), ()))
+    v = S.read((it.L(0), ()))
     if is_enum:
         dd = S.dom(("discr", v)) if not (isinstance(v, tuple) and v[0] == "agg") else None
         if isinstance(v, tuple) and v[0] == "agg" and isinstance(v[1], str):
